@@ -125,6 +125,57 @@ theorem logical_if_nm (S : Sem α) (O : Opaque α) (c e : Expr) (x : Sym) (ρ : 
     · subst hy; simp [Env.set]
     · simp [Env.set, hy]
 
+/-! ## The "empty IF … ELSE" special case -/
+
+/-- `IF (c) THEN` (nothing) `ELSE` assignments `ENDIF`: pharmpy guards the ELSE
+    assignments with `Not(c)`; this agrees with NM-TRAN when the ELSE branch is
+    made of plain assignments to distinct, previously assigned symbols that the
+    block does not read. -/
+theorem empty_if_else_rule (S : Sem α) (O : Opaque α) (seen : List Sym) (c : Expr) (eb : List Item)
+    (ρ : Env α) (hplain : eb.all isPlain = true) (honce : nodupB (bodySyms eb) = true)
+    (hnoread : ∀ x ∈ bodySyms eb, x ∉ c.syms ∧ x ∉ bodyReads eb)
+    (hinit : ∀ x ∈ bodySyms eb, x ∈ seen) :
+    run S.I (translateStmt seen (.block [(c, [])] (some eb))) ρ
+      = nmExec S O ρ (.block [(c, [])] (some eb)) := by
+  let bl' : Blocks := [(some (.f1 "not" c), directAsgs eb)]
+  have hsyms : blockSymbols (mkBlocks [(c, [])] (some eb)) = blockSymbols bl' := by
+    simp [mkBlocks, directAsgs, blockSymbols, bl']
+  have hstmt : ∀ x, blockStmt seen (mkBlocks [(c, [])] (some eb)) x = blockStmt seen bl' x := by
+    intro x
+    simp [mkBlocks, directAsgs, blockStmt, blockExpr, pairsFor, bl']
+  have ok : BlOK seen bl' := by
+    refine ⟨?_, ?_, ?_, ?_⟩
+    · intro b hb
+      simp only [bl', List.mem_singleton] at hb
+      subst hb
+      exact (nodupB_iff _).mp honce
+    · intro x hx hrd
+      rw [mem_blockSymbols] at hx
+      obtain ⟨b, hb, hxb⟩ := hx
+      simp only [bl', List.mem_singleton] at hb
+      subst hb
+      have hx' : x ∈ bodySyms eb := hxb
+      have := hnoread x hx'
+      simp only [blReads, bl', List.flatMap_cons, List.flatMap_nil, List.append_nil, syms,
+        List.mem_append, List.mem_flatMap] at hrd
+      rcases hrd with h | ⟨p, hp, h⟩
+      · exact this.1 h
+      · exact this.2 (by simp only [bodyReads, List.mem_flatMap]; exact ⟨p, hp, h⟩)
+    · simp [symsOf, bl', prefixClosed]
+    · intro x hx
+      rw [mem_blockSymbols] at hx
+      obtain ⟨b, hb, hxb⟩ := hx
+      simp only [bl', List.mem_singleton] at hb
+      subst hb
+      exact Or.inl (hinit x hxb)
+  simp only [translateStmt, reorderBlockStatements, hsyms, nmExec]
+  rw [List.map_congr_left (fun x _ => hstmt x), block_sound S seen bl' ρ ok]
+  simp only [bl', pick, holds, eval, S.not_law, execBlock]
+  by_cases hc : S.truth (eval S.I ρ c) = true
+  · simp [hc, execBody]
+  · have hc' : S.truth (eval S.I ρ c) = false := by simpa using hc
+    simp [hc', execBody_plain S O eb ρ hplain]
+
 /-! ## Structure of the output -/
 
 /-- The statements generated for a block IF assign exactly the symbols assigned
